@@ -161,6 +161,7 @@ def parseVerdicts (toks : List String) : List (Proto × Bytes × Verdict String)
             match v.toList with
             | 'r' :: r => .rejected ((String.ofList r).toNat!)
             | 'c' :: r => .crash ((String.ofList r).toNat!)
+            | ['n'] => .ok "None"      -- the parser returned None without raising
             | _ => .ok "P"
           some (proto, raw, verdict)
         | none => none
@@ -283,7 +284,7 @@ def handle (line : String) : String :=
        let tr : List (Out String) :=
          if src = "file" then run fileSrc hdr cfg O fuel (some s)
          else
-           let lens := ((src.drop 5).toString.splitOn ",").filter (· ≠ "") |>.map toNatD
+           let lens := (((src.drop 5).toString.replace "!" "").splitOn ",").filter (· ≠ "") |>.map toNatD
            run sockSrc hdr cfg O fuel (some (sockInit (splitChunks s lens)))
        " ".intercalate (tr.map outStr)
      | none => "bad-op")
@@ -297,7 +298,7 @@ def handle (line : String) : String :=
        let r : PRes String :=
          if src = "file" then runP fileSrc hdr cfg O (toNatD q) fuel (some s)
          else
-           let lens := ((src.drop 5).toString.splitOn ",").filter (· ≠ "") |>.map toNatD
+           let lens := (((src.drop 5).toString.replace "!" "").splitOn ",").filter (· ≠ "") |>.map toNatD
            runP sockSrc hdr cfg O (toNatD q) fuel (some (sockInit (splitChunks s lens)))
        let its := " ".intercalate (r.items.map (fun (p, raw, m) => s!"{protoStr p}:{hexOf raw}:{m.getD "None"}"))
        let calls := ",".intercalate (r.calls.map ekindStr)
